@@ -4,6 +4,19 @@ claimed / not_applicable partition is always consistent)."""
 import json
 
 CLAIMS = {
+ 'C13': dict(
+   text='Static decision that selections apply exactly their documented predicate and that complement is the exact '
+        'Boolean complement: the yield guard of iterfieldselect / iterrowselect / itersearch is evaluated for all four '
+        'valuations of (predicate, complement) and must be XOR with one yield of the unchanged row; the predicate of each '
+        'of the 21 selector functions is normalised and compared with its documented predicate; complement / missing are '
+        'forwarded unchanged; searchcomplement, biselect, facet are complement siblings of one constructor; '
+        'rowslice/head/skip/tail reduce to itertools.islice with the user\'s arguments. With C04 R4.2 (>= is not <) this '
+        'gives lt/ge and range complementarity for every value, which one table per selector cannot show.',
+   ref='DESIGN.md §4 C13',
+   note='does not evaluate predicates on data; the documented-predicate table is taken from the docstrings (trusted); '
+        'mixed raw/wrapped comparisons rely on C04; user predicates are assumed pure',
+   technique='Boolean truth-table evaluation of yield guards + normal-form comparison of predicate expressions '
+             '(AST rewriting: operator.X == comparison form, parameter renaming, Comparable transparent)'),
  'C19': dict(
    text='Static decision of the failonerror contract: the except-Exception handler at each of the four sites '
         '(transform_value, iterfieldmap, iterrowmap, iterrowmapmany) is extracted as a decision table and evaluated '
